@@ -159,9 +159,10 @@ impl Template {
                                 content_location: _,
                             } => {
                                 w.expr_stmt(|w| {
+                                    // (the line break keeps a trailing `//` comment of the script from swallowing the end)
                                     write!(
                                         w,
-                                        "var {}=D({},(require,exports,module)=>{{{}}})()",
+                                        "var {}=D({},(require,exports,module)=>{{{}\n}})()",
                                         ident,
                                         gen_lit_str(&format!("{}#{}", &self.path, module_name.name)),
                                         content
